@@ -104,6 +104,11 @@ def variant_name(prog, v, ty):
     return vs[v.disc] if isinstance(v.disc, int) and v.disc < len(vs) else None
 
 
+def earlier_kept(w):
+    """whatever was queued for writing before the step is still queued, in place (nothing dropped from the front, nothing cleared)"""
+    return z3.And(w.outbuf.abs == 0, z3.UGE(w.outbuf.len, w.outbuf.items[0]['len'])) if w.outbuf.items else z3.BoolVal(True)
+
+
 def new_items(w, prefilled=1):
     """frames pushed to the output buffer by the code under test (everything after the pre-existing item)"""
     return w.outbuf.items[prefilled:]
